@@ -1,6 +1,599 @@
 import OnetVerif.Model.C08
-/-! Property C08 — property theorems, negation witnesses, `_partial` variants and non-vacuity
-examples only (helper lemmas that need Mathlib go to OnetVerif/Proofs/). -/
+/-! Property C08 — TLS links exist only between peers that proved the keys they claim.
+Only property theorems, negation witnesses, non-vacuity examples and the lemmas they need. -/
 namespace C08
+
+/-! ### what acceptance by the verifier implies -/
+
+/-- everything `makeVerifier` has established when it returns `nil` -/
+theorem verify_ok {s : Suite} {them : Option Key} {n : Nonce} {raw : List Cert}
+    (h : verifyPeer s them n raw = none) :
+    ∃ c pub, raw = [c] ∧ c.parses = true ∧ c.count = 1 ∧ x509ok c = true ∧
+      pubFromCN s c.cn = some pub ∧ c.ext = some (.sig pub n c.cn) ∧
+      (∀ t, them = some t → pub = t ∧ expectedOk t c = true) := by
+  unfold verifyPeer verifyPeerG at h
+  cases raw with
+  | nil => simp at h
+  | cons c rest =>
+    simp only [Bool.true_and] at h
+    by_cases h1 : rest.isEmpty = true
+    case neg => simp [h1] at h
+    by_cases h2 : c.parses = true
+    case neg => simp [h1, h2] at h
+    by_cases h3 : c.count = 1
+    case neg => simp [h1, h2, h3] at h; split at h <;> simp at h
+    by_cases h4 : x509ok c = true
+    case neg => simp [h1, h2, h3, h4] at h
+    simp [h1, h2, h3, h4] at h
+    have hr : c :: rest = [c] := by simpa using h1
+    cases them <;> cases hext : c.ext <;> cases hpub : pubFromCN s c.cn <;>
+      simp [hext, hpub, schnorrVerify] at h <;> try (split at h <;> simp at h)
+    · rename_i sg pub
+      exact ⟨c, pub, hr, h2, h3, h4, hpub, by rw [hext, h], by simp⟩
+    · rename_i t sg pub
+      by_cases e1 : expectedOk t c = true
+      case neg => simp [e1] at h
+      by_cases e2 : pub = t
+      case neg => simp [e1, e2] at h
+      by_cases e3 : sg = Sig.sig pub n c.cn
+      case neg => subst e2; simp [e1, e3] at h
+      exact ⟨c, pub, hr, h2, h3, h4, hpub, by rw [hext, e3], by simp [e1, e2]⟩
+
+/-! ### the decision table -/
+
+/-- the certificate the current code makes (`certMaker.get`): new-style name, one URI -/
+def honestCert (k : Key) (t : TlsKey) (n : Nonce) : Cert :=
+  { parses := true, count := 1, tlsKey := t, signedBy := t, validity := .ok,
+    uris := [⟨true, 0, pubToCN k⟩], cn := .new k, ext := some (.sig k n (.new k)) }
+
+theorem certFor_new (k : Key) (t : TlsKey) (n : Nonce) (hn : n ≠ .badSize) :
+    certFor .new k t n = some (honestCert k t n) := by
+  simp [certFor, hn, honestCert, Style.name]
+
+/-- the property's list of deviations of a peer from the honest handshake, as edits of the
+certificate an honest holder of `k` would present for nonce `n` -/
+inductive Deviation
+  | noCertificate
+  | severalCertificates (extra : Cert)
+  | unparsable
+  | twoInOneBlob
+  | expired
+  | notYetValid
+  | proofMissing
+  | proofGarbled (i : Nat)
+  | proofByOtherKey (k' : Key)
+  | proofOverOtherNonce (n' : Nonce)      -- stale (replayed) or foreign nonce
+  | proofOverOtherName (cn' : Name)       -- e.g. a signature made for the old-style name
+  | nameUndecodable (i : Nat)
+  | oldNameUnderNewSuite                  -- old-style name where the suite cannot parse it
+  | namesOtherKey (k' : Key)              -- CN (and URI) name another server's key, proof kept
+  | cnNamesOtherKeyWithOwnProof (k' : Key) -- CN names k' with k'-signed proof, URI still names k
+
+/-- the deviation really deviates -/
+def Deviation.real (k : Key) (_t : TlsKey) (n : Nonce) (s : Suite) : Deviation → Prop
+  | .proofByOtherKey k' => k' ≠ k
+  | .proofOverOtherNonce n' => n' ≠ n
+  | .proofOverOtherName cn' => cn' ≠ .new k
+  | .oldNameUnderNewSuite => s.oldParses = false
+  | .namesOtherKey k' => k' ≠ k
+  | .cnNamesOtherKeyWithOwnProof k' => k' ≠ k
+  | _ => True
+
+def Deviation.apply (k : Key) (n : Nonce) (c : Cert) : Deviation → List Cert
+  | .noCertificate => []
+  | .severalCertificates extra => [c, extra]
+  | .unparsable => [{ c with parses := false }]
+  | .twoInOneBlob => [{ c with count := 2 }]
+  | .expired => [{ c with validity := .expired }]
+  | .notYetValid => [{ c with validity := .notYet }]
+  | .proofMissing => [{ c with ext := none }]
+  | .proofGarbled i => [{ c with ext := some (.junk i) }]
+  | .proofByOtherKey k' => [{ c with ext := some (.sig k' n c.cn) }]
+  | .proofOverOtherNonce n' => [{ c with ext := some (.sig k n' c.cn) }]
+  | .proofOverOtherName cn' => [{ c with ext := some (.sig k n cn') }]
+  | .nameUndecodable i => [{ c with cn := .junk i, uris := [], ext := some (.sig k n (.junk i)) }]
+  | .oldNameUnderNewSuite => [{ c with cn := .old k, ext := some (.sig k n (.old k)) }]
+  | .namesOtherKey k' =>
+      [{ c with cn := .new k', uris := [⟨true, 0, .new k'⟩], ext := some (.sig k n (.new k')) }]
+  | .cnNamesOtherKeyWithOwnProof k' =>
+      [{ c with cn := .new k', ext := some (.sig k' n (.new k')) }]
+
+/-- which test of `makeVerifier` stops it, when the honest node dialled `k` -/
+def Deviation.caughtDial : Deviation → Check
+  | .noCertificate | .severalCertificates _ => .oneRaw
+  | .unparsable => .parse
+  | .twoInOneBlob => .oneCert
+  | .expired | .notYetValid => .x509
+  | .proofMissing => .sigPresent
+  | .proofGarbled _ | .proofByOtherKey _ | .proofOverOtherNonce _ | .proofOverOtherName _ => .signature
+  | .nameUndecodable _ => .expected
+  | .oldNameUnderNewSuite => .cnDecodes
+  | .namesOtherKey _ => .expected
+  | .cnNamesOtherKeyWithOwnProof _ => .cnIsExpected
+
+/-- … and when the honest node accepted the connection (no expected key) -/
+def Deviation.caughtAccept : Deviation → Check
+  | .nameUndecodable _ => .cnDecodes
+  | .namesOtherKey _ => .signature
+  | d => d.caughtDial
+
+/-- **decision table, verifier part**: the honest certificate is accepted in both roles, and
+every deviation of the list, for every key, TLS key, nonce and suite, is rejected in both roles —
+by the named test.  (`cnNamesOtherKeyWithOwnProof` in the accepting role is not a deviation: the
+peer then simply *is* `k'`; that row is claimed for the dialling role only.) -/
+theorem c08_each_check_necessary (s : Suite) (k : Key) (t : TlsKey) (n : Nonce) :
+    verifyPeer s (some k) n [honestCert k t n] = none ∧
+    verifyPeer s none n [honestCert k t n] = none ∧
+    ∀ d : Deviation, d.real k t n s →
+      verifyPeer s (some k) n (d.apply k n (honestCert k t n)) = some d.caughtDial ∧
+      ((∀ k', d ≠ .cnNamesOtherKeyWithOwnProof k') →
+        verifyPeer s none n (d.apply k n (honestCert k t n)) = some d.caughtAccept) := by
+  refine ⟨?_, ?_, ?_⟩
+  · simp [verifyPeer, verifyPeerG, honestCert, x509ok, expectedOk, pubToCN, pubFromCN, schnorrVerify]
+  · simp [verifyPeer, verifyPeerG, honestCert, x509ok, pubFromCN, schnorrVerify]
+  · intro d hd
+    cases d <;>
+      simp_all [Deviation.real, Deviation.apply, Deviation.caughtDial, Deviation.caughtAccept,
+        verifyPeer, verifyPeerG, honestCert, x509ok, expectedOk, pubToCN, pubFromCN, schnorrVerify]
+    all_goals (first | omega | (intro h; exact hd h.symm) | (exact fun h => hd h.symm) | skip)
+
+/-- what the table does *not* contain: a certificate signed by another key than its own is
+not refused (crypto/x509 trusts a certificate found in the root pool without checking its
+signature).  Who signed the certificate plays no role at all — the proof is the DEDIS signature. -/
+theorem c08_certificate_signer_irrelevant (s : Suite) (them : Option Key) (n : Nonce) (c : Cert)
+    (rest : List Cert) (x : TlsKey) :
+    verifyPeer s them n ({ c with signedBy := x } :: rest) = verifyPeer s them n (c :: rest) := by
+  simp [verifyPeer, verifyPeerG, x509ok, expectedOk]
+
+/-- **decision table, necessity part**: each of the load-bearing tests is the only thing that
+stands between some forged certificate and acceptance — switch that single test off
+(`verifyPeerG`) and the forgery passes; with all tests on it is rejected by exactly that test.
+Keys: 1 = the honest server that was dialled / is claimed, 2 = the forger's own key. -/
+theorem c08_check_load_bearing :
+    -- several certificates
+    (verifyPeerG (· != .oneRaw) ⟨true⟩ (some 1) (.hon 0) [honestCert 1 10 (.hon 0), honestCert 2 11 (.hon 0)] = none ∧
+     verifyPeer ⟨true⟩ (some 1) (.hon 0) [honestCert 1 10 (.hon 0), honestCert 2 11 (.hon 0)] = some .oneRaw) ∧
+    -- several certificates in one blob
+    (verifyPeerG (· != .oneCert) ⟨true⟩ (some 1) (.hon 0) [{ honestCert 1 10 (.hon 0) with count := 2 }] = none ∧
+     verifyPeer ⟨true⟩ (some 1) (.hon 0) [{ honestCert 1 10 (.hon 0) with count := 2 }] = some .oneCert) ∧
+    -- expired
+    (verifyPeerG (· != .x509) ⟨true⟩ (some 1) (.hon 0) [{ honestCert 1 10 (.hon 0) with validity := .expired }] = none ∧
+     verifyPeer ⟨true⟩ (some 1) (.hon 0) [{ honestCert 1 10 (.hon 0) with validity := .expired }] = some .x509) ∧
+    -- replayed proof (nonce of an earlier handshake)
+    (verifyPeerG (· != .signature) ⟨true⟩ (some 1) (.hon 1) [honestCert 1 12 (.hon 0)] = none ∧
+     verifyPeer ⟨true⟩ (some 1) (.hon 1) [honestCert 1 12 (.hon 0)] = some .signature) ∧
+    -- the forger's own key and proof under a URI that names the dialled server
+    (verifyPeerG (· != .cnIsExpected) ⟨true⟩ (some 1) (.hon 0)
+        [{ honestCert 2 12 (.hon 0) with uris := [⟨true, 0, .new 1⟩] }] = none ∧
+     verifyPeer ⟨true⟩ (some 1) (.hon 0)
+        [{ honestCert 2 12 (.hon 0) with uris := [⟨true, 0, .new 1⟩] }] = some .cnIsExpected) ∧
+    -- the forger's own, perfectly honest certificate when somebody else was dialled
+    (verifyPeerG (fun c => c != .expected && c != .cnIsExpected) ⟨true⟩ (some 1) (.hon 0) [honestCert 2 12 (.hon 0)] = none ∧
+     verifyPeer ⟨true⟩ (some 1) (.hon 0) [honestCert 2 12 (.hon 0)] = some .expected) := by
+  decide
+
+/-! ### the router's identity test -/
+
+/-- **the identity attached to every dispatched message carries the proven key**: whatever the
+peer presents and sends, on an accepted connection every envelope handed to the dispatcher
+carries the identity the peer declared, the TLS handshake succeeded, and that identity's public
+key is the key named (and proven) by the certificate; on a dialled connection it carries the
+identity that was dialled, and the certificate names and proves exactly that key. -/
+theorem c08_identity_matches_key (s : Suite) (n : Nonce) (raw : List Cert) (msgs : List Nat)
+    (closed : Bool) :
+    (∀ validPeer first e, e ∈ acceptConn s n validPeer closed raw first msgs →
+      first = .identity e.1 ∧ verifyPeer s none n raw = none ∧ peerKey s raw = some e.1.pub) ∧
+    (∀ them e, e ∈ dialConn s n them closed raw msgs →
+      e.1 = them ∧ verifyPeer s (some them.pub) n raw = none ∧ peerKey s raw = some them.pub) := by
+  constructor
+  · intro validPeer first e he
+    unfold acceptConn at he
+    split at he; · simp at he
+    rename_i hv
+    split at he; · simp at he
+    rename_i dst hr
+    split at he
+    · simp only [List.mem_map] at he
+      obtain ⟨m, _, rfl⟩ := he
+      refine ⟨?_, hv, ?_⟩
+      all_goals
+        unfold receiveServerIdentity at hr
+        split at hr <;> try simp at hr
+        split at hr <;> try simp at hr
+        split at hr <;> try simp at hr
+        split at hr <;> simp at hr
+        subst hr
+        simp_all [peerKey]
+    · simp at he
+  · intro them e he
+    unfold dialConn at he
+    split at he; · simp at he
+    rename_i hv
+    split at he; · simp at he
+    simp only [List.mem_map] at he
+    obtain ⟨m, _, rfl⟩ := he
+    refine ⟨rfl, hv, ?_⟩
+    obtain ⟨c, pub, rfl, _, _, _, hpub, _, ht⟩ := verify_ok hv
+    simp [peerKey, hpub, (ht them.pub rfl).1]
+
+/-- **a peer whose self-declared identity differs from the proven key is dropped before any of
+its messages is dispatched** (and so is one that sends anything but an identity first) -/
+theorem c08_mismatch_dropped (s : Suite) (n : Nonce) (validPeer : Identity → Bool) (closed : Bool)
+    (raw : List Cert) (msgs : List Nat) :
+    (∀ dst, peerKey s raw ≠ some dst.pub →
+      acceptConn s n validPeer closed raw (.identity dst) msgs = []) ∧
+    acceptConn s n validPeer closed raw .other msgs = [] ∧
+    acceptConn s n validPeer closed raw .error msgs = [] := by
+  refine ⟨?_, ?_, ?_⟩
+  · intro dst hne
+    unfold acceptConn
+    split; · rfl
+    cases raw with
+    | nil => simp [receiveServerIdentity]
+    | cons c rest =>
+      simp only [peerKey] at hne
+      cases hpub : pubFromCN s c.cn with
+      | none => simp [receiveServerIdentity, hpub]
+      | some pub =>
+        have : pub ≠ dst.pub := fun h => hne (by rw [hpub, h])
+        simp [receiveServerIdentity, hpub, this]
+  · unfold acceptConn; split <;> simp [receiveServerIdentity]
+  · unfold acceptConn; split <;> simp [receiveServerIdentity]
+
+/-! ### the dialling side reaches the key it intended -/
+
+/-- **the dialling side accepts only the key it intended**: if the verifier made for `them`
+returns `nil` then the key named by the certificate's common name — the one the signature was
+verified against, and the one the router will read — is `them`. (Before the fix a certificate
+whose URI named `them` and whose common name and proof named the presenter's own key passed;
+the witness is the fifth row of `c08_check_load_bearing`.) -/
+theorem c08_dialer_reaches_intended (s : Suite) (them : Key) (n : Nonce) (raw : List Cert)
+    (h : verifyPeer s (some them) n raw = none) :
+    peerKey s raw = some them ∧
+    ∃ c, raw = [c] ∧ c.ext = some (.sig them n c.cn) := by
+  obtain ⟨c, pub, rfl, _, _, _, hpub, hext, ht⟩ := verify_ok h
+  have := (ht them rfl).1
+  subst this
+  exact ⟨by simp [peerKey, hpub], c, rfl, hext⟩
+
+/-! ### freshness, over arbitrary traces -/
+
+theorem run_append (S : Setting) (w : World) (l₁ l₂ : List Ev) :
+    run S w (l₁ ++ l₂) = (run S w l₁).bind fun w' => run S w' l₂ := by
+  induction l₁ generalizing w with
+  | nil => simp [run]
+  | cons e l ih =>
+    simp only [List.cons_append, run]
+    cases step S w e with
+    | none => simp
+    | some w' => simp [ih]
+
+/-- an event in which the honest holder of `k` signs `n` naming itself `cn` -/
+def Signs (k : Key) (n : Nonce) (cn : Name) (e : Ev) : Prop :=
+  ∃ st, cn = st.name k ∧ (e = .certFor k st n ∨ ∃ i, n = .hon i ∧ e = .honest i k st)
+
+theorem verifyAt_log {S : Setting} {w w' : World} {i : Nat} {raw : List Cert}
+    (h : verifyAt S w i raw = some w') : w'.log = w.log ∧ w'.hs = w.hs := by
+  unfold verifyAt at h
+  split at h; · simp at h
+  split at h <;> (simp at h; subst h; simp)
+
+theorem signFor_spec {S : Setting} {w w' : World} {k : Key} {st : Style} {n : Nonce}
+    (h : signFor S w k st n = some w') :
+    S.adv k = false ∧ knownNonce w n = true ∧ w'.hs = w.hs ∧ w'.acc = w.acc ∧
+    (w'.log = w.log ∨ w'.log = (k, n, st.name k) :: w.log) := by
+  unfold signFor at h
+  split at h; · simp at h
+  rename_i hc
+  simp at hc
+  split at h <;> (simp at h; subst h; simp [hc])
+
+/-- one step: handshakes are only ever added; a new log entry comes from a signing event of an
+honest key holder over a nonce that was already drawn -/
+theorem step_log {S : Setting} {w w' : World} {e : Ev} (h : step S w e = some w') :
+    w.hs.length ≤ w'.hs.length ∧
+    ∀ x, x ∈ w'.log → x ∈ w.log ∨
+      (S.adv x.1 = false ∧ Signs x.1 x.2.1 x.2.2 e ∧ knownNonce w x.2.1 = true) := by
+  cases e with
+  | mkVerifier them =>
+    simp [step] at h; subst h
+    exact ⟨by simp, fun x hx => Or.inl hx⟩
+  | certFor k st n =>
+    simp only [step] at h
+    obtain ⟨hadv, hkn, hhs, _, hlog⟩ := signFor_spec h
+    refine ⟨by rw [hhs]; exact Nat.le_refl _, ?_⟩
+    intro x hx
+    rcases hlog with hlog | hlog
+    · left; rw [hlog] at hx; exact hx
+    · rw [hlog] at hx
+      rcases List.mem_cons.mp hx with rfl | hx
+      · right; exact ⟨hadv, ⟨st, rfl, Or.inl rfl⟩, hkn⟩
+      · left; exact hx
+  | present i raw =>
+    simp only [step] at h
+    split at h
+    · obtain ⟨hl, hh⟩ := verifyAt_log h
+      rw [hl, hh]; exact ⟨Nat.le_refl _, fun x hx => Or.inl hx⟩
+    · simp at h
+  | honest i k st =>
+    simp only [step] at h
+    split at h
+    · rename_i w1 c hs1 _
+      obtain ⟨hl, hh⟩ := verifyAt_log h
+      obtain ⟨hadv, hkn, hhs, _, hlog⟩ := signFor_spec hs1
+      refine ⟨by rw [hh, hhs]; exact Nat.le_refl _, ?_⟩
+      intro x hx
+      rw [hl] at hx
+      rcases hlog with hlog | hlog
+      · left; rw [hlog] at hx; exact hx
+      · rw [hlog] at hx
+        rcases List.mem_cons.mp hx with rfl | hx
+        · right; exact ⟨hadv, ⟨st, rfl, Or.inr ⟨i, rfl, rfl⟩⟩, hkn⟩
+        · left; exact hx
+    · simp at h
+
+/-- every log entry of a run was produced by a signing event of the run, at a moment when the
+signed nonce was already known -/
+theorem log_origin (S : Setting) (evs : List Ev) (w₀ w : World) (h : run S w₀ evs = some w)
+    (x : Key × Nonce × Name) (hx : x ∈ w.log) (hx₀ : x ∉ w₀.log) :
+    S.adv x.1 = false ∧
+    ∃ pre e post w₁, evs = pre ++ e :: post ∧ Signs x.1 x.2.1 x.2.2 e ∧
+      run S w₀ pre = some w₁ ∧ knownNonce w₁ x.2.1 = true := by
+  induction evs generalizing w₀ with
+  | nil => simp [run] at h; subst h; exact absurd hx hx₀
+  | cons e es ih =>
+    simp only [run] at h
+    cases hs : step S w₀ e with
+    | none => simp [hs] at h
+    | some w' =>
+      simp only [hs] at h
+      by_cases hx' : x ∈ w'.log
+      · rcases (step_log hs).2 x hx' with h0 | ⟨hadv, hsig, hkn⟩
+        · exact absurd h0 hx₀
+        · exact ⟨hadv, [], e, es, w₀, rfl, hsig, rfl, hkn⟩
+      · obtain ⟨hadv, pre, e', post, w₁, he, hsig, hr, hkn⟩ := ih w' h hx'
+        refine ⟨hadv, e :: pre, e', post, w₁, by simp [he], hsig, ?_, hkn⟩
+        simp [run, hs, hr]
+
+/-- one step: a new accepted handshake was verified in this step against the log as it is
+after the step -/
+theorem step_acc {S : Setting} {w w' : World} {e : Ev} (h : step S w e = some w') :
+    (∀ x, x ∈ w.log → x ∈ w'.log) ∧
+    ∀ i c, (i, c) ∈ w'.acc → (i, c) ∈ w.acc ∨
+      (∃ hs, w.hs[i]? = some hs ∧ verifyPeer S.suite hs.them (.hon i) [c] = none ∧
+        ∀ sg, c.ext = some sg → presentable S.adv w'.log sg = true) := by
+  have verifyAt_acc : ∀ {w w' : World} {i : Nat} {raw : List Cert},
+      verifyAt S w i raw = some w' →
+      ∀ j c, (j, c) ∈ w'.acc → (j, c) ∈ w.acc ∨
+        (j = i ∧ ∃ hs, w.hs[i]? = some hs ∧ raw = [c] ∧ verifyPeer S.suite hs.them (.hon i) [c] = none) := by
+    intro w w' i raw h j c hjc
+    unfold verifyAt at h
+    split at h; · simp at h
+    rename_i hs hhs
+    split at h
+    · rename_i c' rest hv
+      simp at h; subst h
+      rcases List.mem_cons.mp hjc with heq | hjc
+      · right
+        obtain ⟨c'', _, hraw, _⟩ := verify_ok hv
+        simp at heq hraw
+        obtain ⟨rfl, rfl⟩ := heq
+        obtain ⟨rfl, rfl⟩ := hraw
+        exact ⟨rfl, hs, hhs, rfl, hv⟩
+      · left; exact hjc
+    · simp at h; subst h; left; exact hjc
+  cases e with
+  | mkVerifier them =>
+    simp [step] at h; subst h
+    exact ⟨fun x hx => hx, fun i c h => Or.inl h⟩
+  | certFor k st n =>
+    simp only [step] at h
+    obtain ⟨_, _, _, hacc, hlog⟩ := signFor_spec h
+    constructor
+    · intro x hx; rcases hlog with hl | hl <;> rw [hl] <;> simp [hx]
+    · intro i c hic; left; rw [hacc] at hic; exact hic
+  | present i raw =>
+    simp only [step] at h
+    split at h
+    · rename_i hcond
+      obtain ⟨hl, _⟩ := verifyAt_log h
+      refine ⟨fun x hx => by rw [hl]; exact hx, ?_⟩
+      intro j c hjc
+      rcases verifyAt_acc h j c hjc with h0 | ⟨rfl, hs, hhs, hraw, hv⟩
+      · left; exact h0
+      · right
+        refine ⟨hs, hhs, hv, ?_⟩
+        intro sg hsg
+        subst hraw
+        simp [canPresent, hsg] at hcond
+        rw [hl]; exact hcond.2
+    · simp at h
+  | honest i k st =>
+    simp only [step] at h
+    split at h
+    · rename_i w1 c hs1 hc
+      obtain ⟨hl, _⟩ := verifyAt_log h
+      obtain ⟨_, hkn, hhs, hacc, hlog⟩ := signFor_spec hs1
+      have hne : (Nonce.hon i) ≠ .badSize := by simp
+      have hlog' : w1.log = (k, .hon i, st.name k) :: w.log := by
+        unfold signFor at hs1
+        split at hs1; · simp at hs1
+        simp at hs1; subst hs1; rfl
+      constructor
+      · intro x hx; rw [hl, hlog']; simp [hx]
+      · intro j c' hjc
+        rcases verifyAt_acc h j c' hjc with h0 | ⟨rfl, hs, hhs', hraw, hv⟩
+        · left; rw [hacc] at h0; exact h0
+        · right
+          rw [hhs] at hhs'
+          refine ⟨hs, hhs', hv, ?_⟩
+          intro sg hsg
+          simp at hraw; subst hraw
+          simp [certFor] at hc
+          subst hc
+          simp at hsg; subst hsg
+          simp [presentable, hl, hlog']
+    · simp at h
+
+theorem presentable_mono {adv : Key → Bool} {l l' : List (Key × Nonce × Name)}
+    (h : ∀ x, x ∈ l → x ∈ l') {sg : Sig} (hp : presentable adv l sg = true) :
+    presentable adv l' sg = true := by
+  cases sg with
+  | junk i => rfl
+  | sig k n cn =>
+    simp only [presentable, Bool.or_eq_true, List.contains_iff_mem] at hp ⊢
+    rcases hp with hp | hp
+    · left; exact hp
+    · right; exact h _ hp
+
+/-- invariant of every run: an accepted handshake `i` accepted its certificate with the
+verifier of handshake `i`, and the proof in it was presentable from the final log -/
+theorem acc_inv (S : Setting) (evs : List Ev) (w₀ w : World) (h : run S w₀ evs = some w)
+    (hinv₀ : ∀ i c, (i, c) ∈ w₀.acc → ∃ hs, w₀.hs[i]? = some hs ∧
+      verifyPeer S.suite hs.them (.hon i) [c] = none ∧
+      ∀ sg, c.ext = some sg → presentable S.adv w₀.log sg = true) :
+    ∀ i c, (i, c) ∈ w.acc → ∃ hs, w.hs[i]? = some hs ∧
+      verifyPeer S.suite hs.them (.hon i) [c] = none ∧
+      ∀ sg, c.ext = some sg → presentable S.adv w.log sg = true := by
+  induction evs generalizing w₀ with
+  | nil => simp [run] at h; subst h; exact hinv₀
+  | cons e es ih =>
+    simp only [run] at h
+    cases hs : step S w₀ e with
+    | none => simp [hs] at h
+    | some w' =>
+      simp only [hs] at h
+      apply ih w' h
+      intro i c hic
+      have hmono := (step_acc hs).1
+      have hhs : ∀ (i : Nat) (hs : Hs), w₀.hs[i]? = some hs → w'.hs[i]? = some hs := by
+        intro i hsv hi
+        cases e with
+        | mkVerifier them =>
+          simp [step] at hs; subst hs
+          simp only
+          rw [List.getElem?_append_left]
+          · exact hi
+          · exact (List.getElem?_eq_some_iff.mp hi).1
+        | certFor k st n =>
+          simp only [step] at hs
+          rw [(signFor_spec hs).2.2.1]; exact hi
+        | present j raw =>
+          simp only [step] at hs
+          split at hs
+          · rw [(verifyAt_log hs).2]; exact hi
+          · simp at hs
+        | honest j k st =>
+          simp only [step] at hs
+          split at hs
+          · rename_i w1 c hs1 _
+            rw [(verifyAt_log hs).2, (signFor_spec hs1).2.2.1]; exact hi
+          · simp at hs
+      rcases (step_acc hs).2 i c hic with h0 | ⟨hsv, hi, hv, hp⟩
+      · obtain ⟨hsv, hi, hv, hp⟩ := hinv₀ i c h0
+        exact ⟨hsv, hhs i hsv hi, hv, fun sg hsg => presentable_mono hmono (hp sg hsg)⟩
+      · exact ⟨hsv, hhs i hsv hi, hv, hp⟩
+
+/-- **the proof is fresh**: in every run of the world — any number of honest nodes and
+handshakes, an adversary who owns the network, holds keys of its own, sees every signature ever
+made and may ask honest nodes for certificates over any nonce it knows — if honest handshake `i`
+accepts a certificate naming a key `k` the adversary does not hold, then the holder of `k` made
+a certificate for *this handshake's* nonce, and did so after handshake `i` was opened.  No
+signature that existed before the nonce was drawn (a replay) can be accepted. -/
+theorem c08_fresh_signature (S : Setting) (evs : List Ev) (w : World)
+    (hrun : run S {} evs = some w) (i : Nat) (c : Cert) (k : Key)
+    (hacc : (i, c) ∈ w.acc) (hk : pubFromCN S.suite c.cn = some k) (hhon : S.adv k = false) :
+    ∃ pre e post w₁, evs = pre ++ e :: post ∧ Signs k (.hon i) c.cn e ∧
+      run S {} pre = some w₁ ∧ i < w₁.hs.length := by
+  obtain ⟨hsv, _, hv, hp⟩ := acc_inv S evs {} w hrun (by simp) i c hacc
+  obtain ⟨c', pub, hraw, _, _, _, hpub, hext, _⟩ := verify_ok hv
+  simp at hraw; subst hraw
+  rw [hk] at hpub; simp at hpub; subst hpub
+  have hpres := hp _ hext
+  simp only [presentable, hhon, Bool.false_or, List.contains_iff_mem] at hpres
+  obtain ⟨_, pre, e, post, w₁, he, hsig, hr, hkn⟩ :=
+    log_origin S evs {} w hrun (k, .hon i, c.cn) hpres (by simp)
+  exact ⟨pre, e, post, w₁, he, hsig, hr, by simpa [knownNonce] using hkn⟩
+
+/-- the same at the level of one verifier: a certificate whose proof is a signature over any
+other nonce — stale or foreign — is rejected, whoever signed it -/
+theorem c08_replay_rejected (s : Suite) (them : Option Key) (n n' : Nonce) (c : Cert)
+    (k : Key) (cn : Name) (hext : c.ext = some (.sig k n' cn)) (hne : n' ≠ n) :
+    verifyPeer s them n [c] ≠ none := by
+  intro h
+  obtain ⟨c', pub, hraw, _, _, _, _, hext', _⟩ := verify_ok h
+  simp at hraw; subst hraw
+  rw [hext] at hext'
+  simp at hext'
+  exact hne hext'.2.1
+
+/-! ### the full statement, and why it fails -/
+
+/-- the full property additionally wants the accepted *connection* to end at the holder of the
+proven key: the TLS key of the accepted certificate (whose private part crypto/tls has made sure
+the peer holds) is the TLS key of the honest holder of the key named in it -/
+def C08_full : Prop :=
+  ∀ (S : Setting) (evs : List Ev) (w : World),
+    (∀ k, S.adv k = false → S.advTls (S.tlsOf k) = false) →
+    run S {} evs = some w →
+    ∀ i c k, (i, c) ∈ w.acc → pubFromCN S.suite c.cn = some k → S.adv k = false →
+      c.tlsKey = S.tlsOf k
+
+/-- the relay: keys 1 (honest server S) and 2 (adversary M); TLS keys 101 (S's) and 20 (M's) -/
+def relaySetting : Setting :=
+  { suite := ⟨true⟩, adv := fun k => k == 2, advTls := fun t => t == 20, tlsOf := fun k => 100 + k }
+
+/-- M's certificate: S's name, URI and proof under M's own TLS key -/
+def relayCert : Cert := { honestCert 1 20 (.hon 0) with tlsKey := 20, signedBy := 20 }
+
+/-- dialling role: honest C dials what it believes is S; M passes C's nonce on to S (by dialling
+S with it as server name), lifts S's signature into a certificate for its own TLS key -/
+def relayDial : List Ev := [.mkVerifier (some 1), .certFor 1 .new (.hon 0), .present 0 [relayCert]]
+
+/-- accepting role: M connects to honest R, gets R's nonce, has honest C dial M (M is a
+legitimate peer of C) and hands C that nonce as its own; C's client certificate carries C's
+signature over R's nonce; M lifts it -/
+def relayAccept : List Ev := [.mkVerifier none, .certFor 1 .new (.hon 0), .present 0 [relayCert]]
+
+/-- **known finding**: the DEDIS signature covers nonce ‖ CN but not the certificate's TLS key,
+so a relay that holds neither S's onet key nor S's TLS key ends up as the accepted peer `S`, in
+both roles.  (`c08_tls_relay_probe_test.go` shows it on the real code.) -/
+theorem c08_full_fails : ¬ C08_full := by
+  intro h
+  have := h relaySetting relayDial
+    { hs := [⟨some 1⟩], log := [(1, .hon 0, .new 1)], acc := [(0, relayCert)] }
+    (by intro k _; simp only [relaySetting, beq_eq_false_iff_ne]; intro e; exact absurd (e ▸ Nat.le_add_right 100 k : 100 ≤ 20) (by decide)) (by decide) 0 relayCert 1 (by simp) (by decide) (by decide)
+  revert this
+  decide
+
+/-- the same relay against the accepting role is a run of the world too, and is accepted -/
+theorem c08_relay_accept_role :
+    run relaySetting {} relayAccept =
+      some { hs := [⟨none⟩], log := [(1, .hon 0, .new 1)], acc := [(0, relayCert)] } ∧
+    acceptConn ⟨true⟩ (.hon 0) (fun _ => true) false [relayCert] (.identity ⟨1, 0⟩) [7] = [(⟨1, 0⟩, 7)] := by
+  decide
+
+/-! ### non-vacuity -/
+
+/-- honest handshakes exist in the world, in both roles, and are accepted -/
+example : run relaySetting {} [.mkVerifier (some 1), .honest 0 1 .new, .mkVerifier none, .honest 1 1 .old] =
+    some { hs := [⟨some 1⟩, ⟨none⟩],
+           log := [(1, .hon 1, .old 1), (1, .hon 0, .new 1)],
+           acc := [(1, { parses := true, count := 1, tlsKey := 101, signedBy := 101, validity := .ok,
+                         uris := [], cn := .old 1, ext := some (.sig 1 (.hon 1) (.old 1)) }),
+                   (0, honestCert 1 101 (.hon 0))] } := by decide
+
+/-- an accepted connection dispatches, with the proven key attached -/
+example : acceptConn ⟨true⟩ (.hon 0) (fun _ => true) false [honestCert 1 11 (.hon 0)]
+    (.identity ⟨1, 5⟩) [7, 8] = [(⟨1, 5⟩, 7), (⟨1, 5⟩, 8)] := by decide
+
+example : dialConn ⟨false⟩ (.hon 0) ⟨1, 5⟩ false [honestCert 1 11 (.hon 0)] [7] = [(⟨1, 5⟩, 7)] := by decide
+
+/-- a replay is refused in the world: the adversary re-presents S's certificate from handshake 0
+(it holds neither key, so it could not even finish TLS with it — here it is allowed to) to
+handshake 1 -/
+example : (run { relaySetting with advTls := fun _ => true } {}
+    [.mkVerifier (some 1), .honest 0 1 .new, .mkVerifier (some 1), .present 1 [honestCert 1 101 (.hon 0)]]).map
+      (fun w => w.acc.map (·.1)) = some [0] := by decide
 
 end C08
